@@ -1,4 +1,5 @@
 """Rule / obligation bookkeeping shared by all rule modules."""
+import os
 import traceback
 from .mir import AnchorMissing, ShapeNotRecognised
 
@@ -42,11 +43,34 @@ class Ctx:
                 reason="below-floor", nontrivial=False)
 
 
+RULE_BUDGET_S = int(os.environ.get("VERIF_RULE_BUDGET_S", "300"))
+
+
+class _Budget(BaseException):
+    pass
+
+
+def _on_alarm(*_a):
+    raise _Budget()
+
+
 def run_rule(ctx, rid, text, fn):
+    """Every rule runs under a time budget: an analysis that does not come back (path explosion on a
+    shape it was not written for) is reported as such, fail-closed, instead of hanging the check."""
     ctx.rule = rid
     ctx.rule_text[rid] = text
+    old = None
+    try:
+        import signal
+        old = signal.signal(signal.SIGALRM, _on_alarm)
+        signal.alarm(RULE_BUDGET_S)
+    except (ValueError, AttributeError):
+        old = None
     try:
         fn(ctx)
+    except _Budget:
+        ctx.ob("shape", False, "", "analysis budget of %d s exceeded: the rule's path/state exploration did not terminate on this shape" % RULE_BUDGET_S,
+               reason="shape-not-recognised")
     except AnchorMissing as e:
         ctx.ob("anchor", False, "", str(e), reason="anchor-missing")
     except ShapeNotRecognised as e:
@@ -56,4 +80,11 @@ def run_rule(ctx, rid, text, fn):
         ctx.ob("shape", False, "", "checker could not analyse this shape: %r\n%s" % (e, tb),
                reason="shape-not-recognised")
     finally:
+        try:
+            import signal
+            signal.alarm(0)
+            if old is not None:
+                signal.signal(signal.SIGALRM, old)
+        except (ValueError, AttributeError):
+            pass
         ctx.rule = None
